@@ -204,14 +204,19 @@ def execute(ctx, r, files, blocks, fault, desc):
     elif fkind == "refused":
         env["BLOCKWATCH_AI_API_URL"] = fake_ai.closed_port_url()
     root = run.make_repo(files)
+    shapes0 = ai.shapes()
     try:
         res = run.run(ctx.bin("rel"), [], root, stdin=None, env=env, cpu_limit=60, wall_limit=120)
     finally:
         run.rm(root)
     reqs = ai.requests()
+    shapes1 = ai.shapes()
+    # ordinary replies go out in five equivalent wire shapes (plain, escaped+pretty-printed, unknown extra members, chunked, split writes)
+    wire = {k: shapes1[k] - shapes0.get(k, 0) for k in shapes1 if shapes1[k] - shapes0.get(k, 0) > 0}
     key = h([files, [(b.token, b.reply) for b in blocks], fkind, fault[1].name if fault else None, fault[2] if fault else None])
     nontrivial = len(blocks) >= 2 or fault is not None
-    sets = {"fault": [fkind or "none"], "nblocks": [str(len(blocks))]}
+    sets = {"fault": [fkind or "none"], "nblocks": [str(len(blocks))],
+            "reply_wire_shape": ["plain escaped-pretty extra-members chunked split-writes".split()[k] for k in wire]}
     if fault:
         sets["fault_position"] = ["%s/%s" % (fkind, "answered-first" if fault[2] else "answered-last")]
     wit = {"files": files_text(files, 2500), "replies": {b.name: b.reply for b in blocks}, "fault": fkind,
